@@ -120,6 +120,64 @@ Theorem solve_realised : forall T D V PS (leb ltb : T -> T -> bool) (add : T -> 
               /\ length (ray_of r i j) = S (nlegs p).
 Proof. exact solve_realised_b. Qed.
 
+(* the same two theorems for the solver run with ANY argmin choice function `sel` returning a
+   minimiser (in range, attained, <= every candidate): `solve_sel sel` is the answer computed
+   with that choice; the model (first strict minimiser) is the instance sel = cell1 ltb *)
+Theorem solve_optimal_any_choice : forall T V PS (leb : T -> T -> bool) (add : T -> T -> T) (size : PS -> nat)
+    (wf : PS -> V -> PS -> nat -> nat -> T) (sel : nat -> (nat -> T) -> T * nat),
+  (forall a, leb a a = true) -> (forall a b c, leb a b = true -> leb b c = true -> leb a c = true) ->
+  monotone_add leb add -> argmin_choice leb sel ->
+  forall (h : fpath V PS) v P ridx c, interior_ok size (Leg h v P) ->
+    cost add size wf (Leg h v P) ridx = Some c ->
+    exists t, get2 (r_times (solve_sel T V PS add size wf sel h v P)) (last ridx 0) (hd 0 ridx) = Some t
+              /\ leb t c = true.
+Proof. exact any_choice_optimal_lemma. Qed.
+
+Theorem solve_realised_any_choice : forall T V PS (leb : T -> T -> bool) (add : T -> T -> T) (size : PS -> nat)
+    (wf : PS -> V -> PS -> nat -> nat -> T) (sel : nat -> (nat -> T) -> T * nat),
+  argmin_choice leb sel ->
+  forall (h : fpath V PS) v P i j, interior_ok size (Leg h v P) ->
+    i < size (startp h) -> j < size P ->
+    exists t, get2 (r_times (solve_sel T V PS add size wf sel h v P)) i j = Some t
+              /\ cost add size wf (Leg h v P) (rev (ray_of (solve_sel T V PS add size wf sel h v P) i j)) = Some t
+              /\ hd 0 (ray_of (solve_sel T V PS add size wf sel h v P) i j) = i
+              /\ last (ray_of (solve_sel T V PS add size wf sel h v P) i j) 0 = j
+              /\ length (ray_of (solve_sel T V PS add size wf sel h v P) i j) = S (S (nlegs h)).
+Proof. exact any_choice_realised_lemma. Qed.
+
+Theorem model_choice : forall T (leb ltb : T -> T -> bool),
+  total_preorder leb ltb -> argmin_choice leb (cell1 T ltb).
+Proof. exact model_choice_lemma. Qed.
+
+Theorem model_is_choice : forall T D V PS (leb ltb : T -> T -> bool) (add : T -> T -> T) (size : PS -> nat)
+    (dtab : PS -> PS -> list (list D)) (divv : D -> V -> T) (wf : PS -> V -> PS -> nat -> nat -> T),
+  total_preorder leb ltb -> leg_model size dtab divv wf ->
+  forall (h : fpath V PS) v P, interior_ok size (Leg h v P) ->
+    solve_pure ltb add size dtab divv (Leg h v P) = Some (solve_sel T V PS add size wf (cell1 T ltb) h v P).
+Proof. exact model_is_choice_lemma. Qed.
+
+(* the executable specification `brute` (minimum of cost over ALL enumerated index tuples from i
+   to j — the function the harness evaluates by vm_compute on the implementation's times) is what
+   it says: attained by a valid tuple and <= the cost of every valid tuple ... *)
+Theorem brute_spec : forall T V PS (leb ltb : T -> T -> bool) (add : T -> T -> T) (size : PS -> nat)
+    (wf : PS -> V -> PS -> nat -> nat -> T),
+  total_preorder leb ltb ->
+  forall (p : fpath V PS) i j b,
+    brute ltb add size wf p i j = Some b ->
+    (exists ridx, cost add size wf p ridx = Some b /\ last ridx 0 = i /\ hd 0 ridx = j)
+    /\ (forall ridx c, cost add size wf p ridx = Some c -> last ridx 0 = i -> hd 0 ridx = j -> leb b c = true).
+Proof. exact brute_spec_lemma. Qed.
+
+(* ... and the solver's times are that brute-force minimum *)
+Theorem solve_is_brute : forall T D V PS (leb ltb : T -> T -> bool) (add : T -> T -> T) (size : PS -> nat)
+    (dtab : PS -> PS -> list (list D)) (divv : D -> V -> T) (wf : PS -> V -> PS -> nat -> nat -> T),
+  total_preorder leb ltb -> monotone_add leb add -> leg_model size dtab divv wf ->
+  forall (p : fpath V PS) r i j t b,
+    interior_ok size p -> solve_pure ltb add size dtab divv p = Some r ->
+    get2 (r_times r) i j = Some t -> brute ltb add size wf p i j = Some b ->
+    leb t b = true /\ leb b t = true.
+Proof. exact solve_is_brute_lemma. Qed.
+
 (* solving any list of paths with ONE solver (shared cached_result / cached_distance,
    the `rkey` slip of consecutive_times included) gives, path by path and in any order,
    the stand-alone answers — and raises iff some stand-alone solve raises *)
